@@ -10,6 +10,10 @@ impl<T> Signal<T> {
     /// constructed in state LOCKED (a signal may be published only in that state)
     pub open spec fn armed(&self) -> bool { self.state.init() == LOCKED }
     pub open spec fn wakes(&self, w: Waker) -> bool { self.waker matches KanalWaker::Async(x) && x == w }
+    /// this thread has published the final state `st` of the signal with release semantics
+    pub open spec fn published(&self, st: u8) -> bool {
+        exists|o: Ordering| is_release(o) && #[trigger] self.state.stored(st, o)
+    }
     pub open spec fn seen_unlocked(&self) -> bool { self.state.observed(UNLOCKED) }
     pub open spec fn seen_terminated(&self) -> bool { self.state.observed(TERMINATED) }
 }
